@@ -4,6 +4,13 @@ Core-only.
 -/
 namespace ZChain.Gov
 
+open Lean in
+/-- `str% "abc"` is the list literal of the UTF-8 bytes of the string (`[97, 98, 99] : List Nat`), built at
+elaboration time: `String` functions do not reduce in the kernel, list literals do. -/
+macro "str%" s:str : term => do
+  let elems := (s.getString.toUTF8.toList.map fun b => Syntax.mkNumLit (toString b.toNat)).toArray
+  `(([$elems,*] : List Nat))
+
 /-- `core/config/utils.go: ConfigType` (same order as the Go `iota` block). -/
 inductive CT where
   | int | int64 | int32 | duration | float64 | boolean | string | coin | key | cost | strings
@@ -14,16 +21,33 @@ deriving DecidableEq, Repr, Inhabited
 for this setting ("" when none has). -/
 structure Entry where
   name : String
+  key : List Nat     -- the bytes of `name`
   ct : CT
   mutable : Bool
   setter : String
 deriving Repr, Inhabited
 
+/-- What is done to a value string before it is stored: the combination of parser / conversion calls found in
+the Go source (`harness/cmd/xc48` maps the call list to one of these and fails on an unknown combination). -/
+inductive PK where
+  | atoi        -- strconv.Atoi
+  | int64       -- strconv.ParseInt(_, 10, 64)
+  | uint64coin  -- strconv.ParseUint, currency.Coin(_)
+  | float       -- strconv.ParseFloat
+  | zcn         -- strconv.ParseFloat, currency.ParseZCN
+  | mult1e10    -- strconv.ParseFloat, currency.MultFloat64(1e10, _)
+  | rawCoin     -- strconv.ParseFloat, currency.Coin(_)
+  | dur         -- time.ParseDuration
+  | bool        -- strconv.ParseBool
+  | hex         -- hex.DecodeString (the string itself is stored)
+  | raw         -- no call: the string is stored as it is
+deriving DecidableEq, Repr, Inhabited
+
 /-- One case of the `switch settings.ConfigType` in `GlobalNode.set` / `Config.set`:
 the parser calls made on the value, and the setter called with the result. -/
 structure Dispatch where
   ct : CT
-  parse : List String
+  parse : PK
   setter : String
 deriving Repr, Inhabited
 
@@ -31,7 +55,8 @@ deriving Repr, Inhabited
 zcnsc `GlobalNode.UpdateConfig`: parser calls on the value and receiver methods called. -/
 structure KeyCase where
   name : String
-  parse : List String
+  key : List Nat     -- the bytes of `name`
+  parse : PK
   calls : List String
 deriving Repr, Inhabited
 
